@@ -49,7 +49,7 @@ Proof.
   cbn [slot_has]. destruct (leqb x y); [reflexivity|]. rewrite IH.
   destruct (position (leqb x) l); reflexivity.
 Qed.
-Lemma position_existsb (p : L -> bool) l : position p l = None <-> existsb p l = false.
+Lemma position_None_iff (p : L -> bool) l : position p l = None <-> existsb p l = false.
 Proof.
   induction l as [|y l IH]; cbn [position existsb]; [split; reflexivity|].
   destruct (p y); cbn [orb]; [split; discriminate|].
@@ -67,8 +67,8 @@ Proof.
   unfold new_label, find_label, plain. cbn [slots n_removed]. rewrite position_fresh.
   destruct (existsb (leqb x) pre) eqn:E.
   - destruct (position (leqb x) pre) eqn:P; [reflexivity|].
-    apply position_existsb in P. congruence.
-  - apply position_existsb in E. rewrite E. cbn [option_map].
+    apply position_None_iff in P. congruence.
+  - apply position_None_iff in E. rewrite E. cbn [option_map].
     rewrite fresh_slots_app, fresh_slots_length. reflexivity.
 Qed.
 
